@@ -60,6 +60,7 @@ WEAK void hk_dead_end(void)
 WEAK void hk_write(int fd, const void *b, size_t n, long r, int e, int nb) { (void)fd; (void)b; (void)n; (void)r; (void)e; (void)nb; }
 WEAK void hk_read(int fd, const void *b, size_t n, long r, int e) { (void)fd; (void)b; (void)n; (void)r; (void)e; }
 WEAK void hk_close(int fd) { (void)fd; }
+WEAK void hk_splice(int fi, int fo, size_t n, long r, int e) { (void)fi; (void)fo; (void)n; (void)r; (void)e; }
 WEAK void hk_wait4(pid_t a, int o, pid_t r, int s) { (void)a; (void)o; (void)r; (void)s; }
 WEAK void hk_kill(pid_t p, int s, int r, int e) { (void)p; (void)s; (void)r; (void)e; }
 WEAK void hk_fork(pid_t r) { (void)r; }
@@ -97,6 +98,7 @@ static _Atomic int nslots;
 static __thread int my_slot = -1;
 __thread int vt_in_register_try;
 __thread int vt_nonparticipant;
+__thread int vt_no_perturb;
 
 static _Atomic int running = 1;		/* the main thread */
 static _Atomic uint64_t epoch = 1;
@@ -181,7 +183,7 @@ static void perturb(void)
 	uint64_t r;
 	unsigned bias;
 
-	if (!perturb_level || in_child)
+	if (!perturb_level || in_child || vt_no_perturb)
 		return;
 	t = &thr[vt_self()];
 	r = xs(&t->rng);
@@ -1072,8 +1074,14 @@ long __wrap_write(int fd, const void *buf, size_t n)
 long __wrap_splice(int fdin, off_t *offin, int fdout, off_t *offout, size_t len, unsigned int flags)
 {
 	int inj = fault_check("splice");
+	long r;
+	int e;
 	if (inj) { errno = inj; return -1; }
-	return __real_splice(fdin, offin, fdout, offout, len, flags);
+	r = __real_splice(fdin, offin, fdout, offout, len, flags);
+	e = errno;
+	hk_splice(fdin, fdout, len, r, e);
+	errno = e;
+	return r;
 }
 
 /* ---- processes and signals ------------------------------------------------------ */
